@@ -24,6 +24,11 @@ tvars == <<cell>>
 -----------------------------------------------------------------------------
 (* C19 *)
 MisuseKinds == {"param_ARGS", "param_KWARGS", "kw_ARGS", "kw_KWARGS", "kw_ARGS_reentrant", "kw_KWARGS_reentrant",
+                \* the reserved parameter declared keyword-only (def f(x=1, *, _KWARGS=2)) or as the variadic parameter itself
+                \* (def f(x=1, *_ARGS) / def f(x=1, **_KWARGS))
+                "param_ARGS_kwonly", "param_KWARGS_kwonly", "param_ARGS_variadic", "param_KWARGS_variadic",
+                \* the reserved keyword passed to a function WITHOUT **kwargs whose precondition the call violates
+                "kw_ARGS_pre_violated", "kw_KWARGS_pre_violated",
                 "param_result", "param_OLD",
                 \* the same reserved names declared keyword-only (with a default), positional-only, or passed through **kwargs
                 "param_result_kwonly", "param_OLD_kwonly", "param_result_posonly", "param_OLD_posonly",
@@ -49,18 +54,20 @@ Callables == {"function", "method", "static", "classm", "getter", "async_functio
 
 ErrorKinds == {"error_int", "error_str", "error_nonexc_class", "error_callable_object", "error_empty_str", "error_zero",
                "error_empty_list", "error_false"}
+ReservedParamShapes == {"param_ARGS_kwonly", "param_KWARGS_kwonly", "param_ARGS_variadic", "param_KWARGS_variadic"}
 ReservedPost == {"param_result", "param_OLD", "param_result_kwonly", "param_OLD_kwonly", "param_result_posonly",
                  "param_OLD_posonly", "kw_result", "kw_OLD"}
 InvParamKinds == {"inv_extra_param", "inv_varargs", "inv_varkw", "inv_only_varargs", "inv_kwonly_param",
                   "inv_defaulted_param"}
 \* on which decorator / callable a misuse can occur at all
 MisuseApplies(m, d, c) ==
-  CASE m \in {"param_ARGS", "param_KWARGS", "kw_ARGS", "kw_KWARGS"} -> d \in {"require", "ensure"} /\ c \notin {"class", "getter"}
+  CASE m \in {"param_ARGS", "param_KWARGS", "kw_ARGS", "kw_KWARGS"} \cup ReservedParamShapes -> d \in {"require", "ensure"} /\ c \notin {"class", "getter"}
     \* the reserved keyword is passed by a call the function's own condition makes (a re-entrant, unchecked call)
     [] m \in {"kw_ARGS_reentrant", "kw_KWARGS_reentrant"} -> d \in {"require", "ensure"} /\ c \in {"function", "method", "static"}
     [] m \in {"param_ARGS_inherited", "param_KWARGS_inherited"} -> d \in {"require", "ensure"} /\ c \in {"method", "async_method", "static", "classm"}
     [] m \in {"inv_coroutine_error_class", "inv_coroutine_error_factory"} -> d = "invariant" /\ c = "class"
     [] m \in {"param_result_pre_violated", "param_OLD_pre_violated"} -> d = "ensure" /\ c \notin {"class", "getter"}
+    [] m \in {"kw_ARGS_pre_violated", "kw_KWARGS_pre_violated"} -> d \in {"require", "ensure"} /\ c \notin {"class", "getter"}
     [] m \in ReservedPost -> d \in {"require", "ensure"} /\ c \notin {"class", "getter"}
     [] m \in InvParamKinds \cup {"inv_coroutine"} -> d = "invariant" /\ c = "class"
     [] m \in {"snapshot_no_post", "capture_noname_0", "capture_noname_2", "snapshot_dup", "capture_noname_default",
@@ -70,10 +77,10 @@ MisuseApplies(m, d, c) ==
 
 \* when and how it must be rejected ("never" = it is no misuse in this cell)
 MisuseExpected(m, d, c) ==
-  CASE m \in {"param_ARGS", "param_KWARGS", "param_ARGS_inherited", "param_KWARGS_inherited"} -> [moment |-> "decorate", exc |-> "TypeError"]
+  CASE m \in {"param_ARGS", "param_KWARGS", "param_ARGS_inherited", "param_KWARGS_inherited"} \cup ReservedParamShapes -> [moment |-> "decorate", exc |-> "TypeError"]
     [] m \in {"inv_coroutine_error_class", "inv_coroutine_error_factory"} -> [moment |-> "create", exc |-> "ValueError"]
     [] m \in {"kw_ARGS", "kw_KWARGS", "kw_ARGS_reentrant", "kw_KWARGS_reentrant"} -> [moment |-> "call", exc |-> "TypeError"]
-    [] m \in {"param_result_pre_violated", "param_OLD_pre_violated"} -> [moment |-> "call", exc |-> "TypeError"]
+    [] m \in {"param_result_pre_violated", "param_OLD_pre_violated", "kw_ARGS_pre_violated", "kw_KWARGS_pre_violated"} -> [moment |-> "call", exc |-> "TypeError"]
     [] m \in ReservedPost ->
          \* only a function with postconditions reserves these names
          IF d = "ensure" THEN [moment |-> "call", exc |-> "TypeError"] ELSE [moment |-> "never", exc |-> ""]
